@@ -39,6 +39,9 @@ func cmdSelftest(args []string) int {
 	}
 	repo := envOr("VERIF_REPO", "/repo")
 	bad := 0
+	if len(only) == 0 || only["lemmas"] {
+		bad += bogusLemmas(repo)
+	}
 	for _, c := range cs {
 		if len(only) > 0 && !only[c.ID] && !only[c.Property] {
 			continue
@@ -110,4 +113,63 @@ func first(xs []string, n int) []string {
 		return append(xs[:n:n], fmt.Sprintf("... (%d)", len(xs)))
 	}
 	return xs
+}
+
+// bogusLemmas: every lemma of selftest/bogus.spec is false and must stay unproved.
+func bogusLemmas(repo string) int {
+	e, err := NewEngineOverlay(repo, nil)
+	if err != nil {
+		fmt.Println(err)
+		return 1
+	}
+	if err := e.LoadSpecs(homeDir() + "/spec"); err != nil {
+		fmt.Println(err)
+		return 1
+	}
+	b, err := os.ReadFile(filepath.Join(homeDir(), "selftest", "bogus.spec"))
+	if err != nil {
+		fmt.Println(err)
+		return 1
+	}
+	before := map[string]bool{}
+	for n := range e.specs.Lemmas {
+		before[n] = true
+	}
+	if err := parseSpecFile(string(b), "selftest/bogus.spec", e.specs); err != nil {
+		fmt.Println(err)
+		return 1
+	}
+	only := map[string]bool{}
+	for n := range e.specs.Lemmas {
+		if !before[n] {
+			only[n] = true
+		}
+	}
+	obls, err := e.LemmaObligations(only)
+	if err != nil {
+		fmt.Println(err)
+		return 1
+	}
+	dir, _ := os.MkdirTemp("", "vc-self-")
+	defer os.RemoveAll(dir)
+	e.Discharge(obls, SolveOpts{TimeoutS: 5, Dir: dir, Workers: 8})
+	bad := 0
+	proved := map[string]bool{}
+	for n := range only {
+		proved[n] = true
+	}
+	for _, o := range obls {
+		if o.Status != "discharged" {
+			proved[strings.Split(strings.TrimPrefix(o.Name, "lemma."), "/")[0]] = false
+		}
+	}
+	for n := range only {
+		if proved[n] {
+			bad++
+			fmt.Printf("BAD  %-34s false lemma was PROVED\n", n)
+		} else {
+			fmt.Printf("ok   %-34s false lemma stays unproved\n", n)
+		}
+	}
+	return bad
 }
